@@ -1,8 +1,8 @@
 (* C07 — reviewed classification of the analyzer tables, on top of the lists that
    translators/dropped_tables.py regenerates from the Rust source (GeneratedTables.v), and the
-   instantiation of the generic refinement theorem with them.
+   instantiation of the generic refinement theorems with them.
 
-   [observable t]: can a stale entry of table t (an entry registered for an EARLIER text of a file) change a
+   [observable t]: can an entry of table t that was registered for an EARLIER text of a file change a
    published diagnostic?  Reasons for the tables judged unobservable:
      T_intern            string/path interning and id counters: only identities, never compared in a diagnostic;
                          interning is idempotent.
@@ -10,15 +10,21 @@
                          keyed by TokenId; every parse / fragment restore allocates fresh token ids
                          (resource_table::new_token_id / reserve_token_ids), so an entry of an earlier text is never
                          looked up again.
-     T_reference_functions, T_generic_instances, T_type_dag
+     T_reference_functions, T_generic_instances
                          keyed by SymbolId of symbols of the file itself; re-analysis allocates fresh symbol ids
                          and lookups start from live symbols only.
-     T_scope_tree        interned (parent, name) -> scope id; a scope left without locals/imports/wildcards
-                         resolves nothing.
+     T_type_dag          nodes are keyed by SymbolId, file nodes are re-created per symbol: an edge of an earlier
+                         text joins dead nodes only.  (The panic in insert_file_edge for files that reference
+                         each other is history-independent in kind; it is a C11 finding.)
+     T_scope_generic     instance scope -> template scope, both determined by their names; re-registration is
+                         idempotent.
      T_symbol_resolved   fields inside Symbol values: dropped together with T_symbols.
-   Tables that ARE observable although drop_file does not clear them (confirmed on the real server by the
-   end-to-end driver, see design/C07.md and KNOWN_FINDINGS.txt) are listed in [known_stale]; the refinement
-   theorem is then about diagnostics that do not read those tables, and [stale_table_witness] gives the
+   Tables that ARE observable although drop_file does not clear them are listed in [known_stale_l]; each is a
+   finding confirmed on the real server by the end-to-end driver (design/C07.md, KNOWN_FINDINGS.txt):
+     T_scope_tree        interned scopes keep their kind after their owner is dropped: once `PkgB` has existed,
+                         `PkgB::C0` is reported as "PkgB is undefined" twice instead of "C0 is undefined" +
+                         "PkgB is undefined" (key stale-scope:undefined-identifier-names).
+   The refinement theorem is about diagnostics that do not read those tables, and [stale_table_witness] gives the
    2-edit history schema for each of them. *)
 From Coq Require Import List Bool Arith.
 Import ListNotations.
@@ -32,11 +38,10 @@ Definition drained (t : table) : bool := mem t drained_l.
 
 Definition unobservable_l : list table :=
   [T_intern; T_literal; T_msb; T_connect_op; T_generic_inferred; T_reference_functions;
-   T_generic_instances; T_type_dag; T_scope_tree; T_symbol_resolved].
+   T_generic_instances; T_type_dag; T_scope_generic; T_symbol_resolved].
 
 (* written, observable, neither dropped per file nor drained: each one is a finding with a replay *)
-Definition known_stale_l : list table :=
-  [T_doc_comment; T_scope_imports; T_scope_wildcards; T_scope_mixins; T_scope_generic].
+Definition known_stale_l : list table := [T_scope_tree].
 
 Definition observable_all (t : table) : bool := negb (mem t unobservable_l).
 (* the diagnostics covered by the theorem: everything except what is computed from a known-stale table *)
@@ -63,9 +68,15 @@ Lemma stale_tables_are_the_known_ones : stale_tables = known_stale_l.
 Proof. vm_compute. reflexivity. Qed.
 
 Lemma server_shape_ok :
-  on_change_shape_ok = true /\ background_shape_ok = true /\ on_remove_drops = true /\
-  did_close_handled = false /\ did_save_handled = false.
+  on_change_shape_ok = true /\ background_shape_ok = true /\ on_remove_drops = true.
 Proof. vm_compute. repeat split. Qed.
+
+(* the server handles didClose (forget the buffer, drop the file, re-analyse from disk) and on_remove forgets the
+   buffer of a removed file: then every history is admissible *)
+Lemma close_is_handled : did_close_handled = true.
+Proof. vm_compute. reflexivity. Qed.
+Lemma remove_forgets_buffer : on_remove_forgets = true.
+Proof. vm_compute. reflexivity. Qed.
 
 Lemma discipline_prop : discipline table written dropped drained observable.
 Proof.
@@ -79,10 +90,10 @@ Section Instance.
   Variable pass1 : file -> content -> table -> list fact.
   Variable diagf : file -> (table -> file -> list fact) -> diag.
 
-  (* the model instantiated with the generated classification *)
-  Definition ls_run := run table content fact diag written dropped drained pass1 diagf.
+  (* the model instantiated with the generated classification and server shape *)
+  Definition ls_run := run table content fact diag written dropped drained did_close_handled on_remove_forgets pass1 diagf.
   Definition ls_refresh := refresh table content fact diag written dropped drained pass1 diagf.
-  Definition ls_hist_ok := hist_ok table content fact diag written dropped drained pass1 diagf.
+  Definition ls_hist_ok := hist_ok table content fact diag written dropped drained did_close_handled on_remove_forgets pass1 diagf.
   Definition ls_spec := diags_spec table content fact diag written drained pass1 diagf.
   Definition ls_reads_observable_only := reads_observable_only table fact diag observable diagf.
 
@@ -90,19 +101,22 @@ Section Instance.
     ls_reads_observable_only ->
     forall w0 h f d,
       (forall g, editor content w0 g = None) ->
-      ls_hist_ok (w0, init_srv table content fact) h ->
       ls_refresh (ls_run w0 h) f = Some d ->
       d = ls_spec (cur content (fst (ls_run w0 h))) f.
-  Proof. intro RO. exact (ls_refines_spec _ _ _ _ _ _ _ _ _ _ discipline_prop RO). Qed.
+  Proof.
+    intro RO.
+    exact (ls_refines_spec_all _ _ _ _ _ _ _ _ _ _ _ _ discipline_prop RO close_is_handled remove_forgets_buffer).
+  Qed.
 
   Theorem ls_history_independent_generated :
     ls_reads_observable_only ->
     forall w1 h1 w2 h2 f d1 d2,
       (forall g, editor content w1 g = None) -> (forall g, editor content w2 g = None) ->
-      ls_hist_ok (w1, init_srv table content fact) h1 ->
-      ls_hist_ok (w2, init_srv table content fact) h2 ->
       (forall g, cur content (fst (ls_run w1 h1)) g = cur content (fst (ls_run w2 h2)) g) ->
       ls_refresh (ls_run w1 h1) f = Some d1 -> ls_refresh (ls_run w2 h2) f = Some d2 ->
       d1 = d2.
-  Proof. intro RO. exact (ls_history_independent _ _ _ _ _ _ _ _ _ _ discipline_prop RO). Qed.
+  Proof.
+    intro RO.
+    exact (ls_history_independent_all _ _ _ _ _ _ _ _ _ _ _ _ discipline_prop RO close_is_handled remove_forgets_buffer).
+  Qed.
 End Instance.
